@@ -115,6 +115,10 @@ pub fn shape_menu(n: usize, kinds: &[bool], depth: usize) -> Vec<(String, Vec<Ex
 	if n == 1 {
 		out.push(("leaf".into(), vec![l(0)]));
 		out.push(("P(leaf)".into(), vec![Expr::P(0, bx(l(0)))]));
+		if depth >= 1 {
+			// a Poisonable directly inside a Poisonable: the guard route poisons both, scoped_* only the outer one (D5)
+			out.push(("P(P(leaf))".into(), vec![Expr::P(0, bx(Expr::P(1, bx(l(0)))))]));
+		}
 	}
 	out.push(("B".into(), vec![Expr::B(bx(v(all())))]));
 	out.push(("F".into(), vec![Expr::F(bx(v(all())))]));
@@ -136,7 +140,11 @@ pub fn shape_menu(n: usize, kinds: &[bool], depth: usize) -> Vec<(String, Vec<Ex
 		{
 			let mut es = vec![Expr::P(0, bx(l(0)))];
 			es.extend(from(1));
-			out.push(("O[P,..]".into(), vec![Expr::O(hi, bx(v(es)))]));
+			out.push(("O[P,..]".into(), vec![Expr::O(hi, bx(v(es.clone())))]));
+			// a Poisonable around a collection that contains a Poisonable
+			let mut es1 = vec![Expr::P(1, bx(l(0)))];
+			es1.extend(from(1));
+			out.push(("P(O[P,..])".into(), vec![Expr::P(0, bx(Expr::O(hi, bx(v(es1)))))]));
 		}
 	}
 	if depth >= 1 && n >= 2 {
@@ -155,6 +163,18 @@ pub fn shape_menu(n: usize, kinds: &[bool], depth: usize) -> Vec<(String, Vec<Ex
 			let mut es = vec![Expr::O(hi + 2, bx(v(vec![l(0)])))];
 			es.extend(from(1));
 			out.push(("O[O[l],..]".into(), vec![Expr::O(1, bx(v(es)))]));
+		}
+		// an owned group of two leaves as a member of a retrying collection: the group is one lock for
+		// the retrying algorithm and is taken in order, blocking (finding D17 when its second leaf is busy)
+		if n >= 3 {
+		out.push((
+			"T[O[l,l],..]".into(),
+			vec![Expr::T(bx(v({
+				let mut es = vec![Expr::O(3, bx(v(vec![l(0), l(1)])))];
+				es.extend(from(2));
+				es
+			})))],
+		));
 		}
 		out.push(("B[V[..]]".into(), vec![Expr::B(bx(v(vec![v(vec![l(0)]), v(from(1))])))]));
 		// a collection referenced from another one (by `&`)
